@@ -93,7 +93,11 @@ class _FilesystemDataSource(DataSource):
         non_versioned_path = self._get_non_versioned_link_path(
             self._escape_key(key.key)
         )
-        with open(str(non_versioned_path), "r") as f:
+        # A link truncated by an interrupted write may end inside a multi-byte character (the
+        # store path or the key may be non-ASCII): decode it leniently, so that it resolves to
+        # a path that does not exist - like any other damaged link - instead of raising
+        # UnicodeDecodeError at every reader.
+        with open(str(non_versioned_path), "r", errors="surrogateescape") as f:
             versioned_path = Path(f.read())
         return versioned_path
 
